@@ -91,3 +91,55 @@ func CompareAndSwapPointer(addr *unsafe.Pointer, old, new unsafe.Pointer) bool {
 	}
 	return false
 }
+
+// ---- typed atomics (used by Go's own sync sources in the layered harness); same discipline: yield, then act.
+
+type Int32 struct{ v int32 }
+
+func (x *Int32) Load() int32                        { return LoadInt32(&x.v) }
+func (x *Int32) Store(v int32)                      { StoreInt32(&x.v, v) }
+func (x *Int32) Swap(v int32) int32                 { return SwapInt32(&x.v, v) }
+func (x *Int32) CompareAndSwap(o, n int32) bool     { return CompareAndSwapInt32(&x.v, o, n) }
+func (x *Int32) Add(d int32) int32                  { return AddInt32(&x.v, d) }
+
+type Uint32 struct{ v uint32 }
+
+func (x *Uint32) Load() uint32                      { return LoadUint32(&x.v) }
+func (x *Uint32) Store(v uint32)                    { StoreUint32(&x.v, v) }
+func (x *Uint32) Swap(v uint32) uint32              { return SwapUint32(&x.v, v) }
+func (x *Uint32) CompareAndSwap(o, n uint32) bool   { return CompareAndSwapUint32(&x.v, o, n) }
+func (x *Uint32) Add(d uint32) uint32               { return AddUint32(&x.v, d) }
+
+type Int64 struct{ v int64 }
+
+func (x *Int64) Load() int64                        { return LoadInt64(&x.v) }
+func (x *Int64) Store(v int64)                      { StoreInt64(&x.v, v) }
+func (x *Int64) Swap(v int64) int64                 { return SwapInt64(&x.v, v) }
+func (x *Int64) CompareAndSwap(o, n int64) bool     { return CompareAndSwapInt64(&x.v, o, n) }
+func (x *Int64) Add(d int64) int64                  { return AddInt64(&x.v, d) }
+
+type Uint64 struct{ v uint64 }
+
+func (x *Uint64) Load() uint64                      { return LoadUint64(&x.v) }
+func (x *Uint64) Store(v uint64)                    { StoreUint64(&x.v, v) }
+func (x *Uint64) Swap(v uint64) uint64              { return SwapUint64(&x.v, v) }
+func (x *Uint64) CompareAndSwap(o, n uint64) bool   { return CompareAndSwapUint64(&x.v, o, n) }
+func (x *Uint64) Add(d uint64) uint64               { return AddUint64(&x.v, d) }
+
+type Uintptr struct{ v uintptr }
+
+func (x *Uintptr) Load() uintptr                    { return LoadUintptr(&x.v) }
+func (x *Uintptr) Store(v uintptr)                  { StoreUintptr(&x.v, v) }
+func (x *Uintptr) CompareAndSwap(o, n uintptr) bool { return CompareAndSwapUintptr(&x.v, o, n) }
+func (x *Uintptr) Add(d uintptr) uintptr            { return AddUintptr(&x.v, d) }
+
+type Bool struct{ v uint32 }
+
+func (x *Bool) Load() bool { return LoadUint32(&x.v) != 0 }
+func (x *Bool) Store(b bool) {
+	if b {
+		StoreUint32(&x.v, 1)
+	} else {
+		StoreUint32(&x.v, 0)
+	}
+}
